@@ -97,7 +97,8 @@ func (r *c38Rig) groupOfKey(k []byte) int {
 	return 0
 }
 
-func (r *c38Rig) Name() string { return "beacon" }
+func (r *c38Rig) Marker() string { return "keep-core/pkg/beacon/registry." }
+func (r *c38Rig) Name() string   { return "beacon" }
 
 func (r *c38Rig) Start(h persistence.ProtectedHandle) error {
 	reg := NewGroupRegistry(&testutils.MockLogger{}, r.chain, h)
